@@ -122,4 +122,7 @@ var Registry = map[string]func(c *Ctx, arg string) error{
 	"proxy": func(c *Ctx, arg string) error {
 		return RunProxy(c)
 	},
+	"keyfile": func(c *Ctx, arg string) error {
+		return RunKeyFile(c)
+	},
 }
